@@ -632,6 +632,30 @@ def make_threading_facade():
     return m
 
 
+def make_time_facade():
+    """A `time` module whose clock is the scheduler's virtual clock: code under test that starts reading the time
+    (deadlines, give-up limits) reads the time its simulated waits elapse in.  Everything else is the real module's."""
+    import time as _real
+
+    m = types.ModuleType("simtime")
+    for k in dir(_real):
+        if not k.startswith("__"):
+            setattr(m, k, getattr(_real, k))
+
+    def now():
+        try:
+            return 1.0e9 + S().clock
+        except Exception:
+            return _real.time()
+    m.time = now
+    m.monotonic = lambda: now() - 1.0e9
+    m.perf_counter = m.monotonic
+    m.monotonic_ns = lambda: int(m.monotonic() * 1e9)
+    m.time_ns = lambda: int(now() * 1e9)
+    m.sleep = sleep
+    return m
+
+
 def queue_item_id(item):
     if isinstance(item, tuple) and len(item) == 4:
         return getattr(item[0], "task_id", "task?")
@@ -729,9 +753,10 @@ def load_sim_modules(repo=None):
     spec = importlib.util.spec_from_file_location(
         "verif_sim_threadpool", repo + "/jsonrpclib/threadpool.py")
     tp = importlib.util.module_from_spec(spec)
-    saved = dict((k, _sys.modules.get(k)) for k in ("threading", "queue"))
+    saved = dict((k, _sys.modules.get(k)) for k in ("threading", "queue", "time"))
     _sys.modules["threading"] = simthreading
     _sys.modules["queue"] = simqueue
+    _sys.modules["time"] = make_time_facade()
     try:
         spec.loader.exec_module(tp)
     finally:
